@@ -276,9 +276,10 @@ fn history(rng: &mut Rng, desc: u64, backend: u64, len: u64) -> T {
     };
     for _ in 0..len {
         let r = rng.below(100);
+        // at the maximum the "next" height repeats the maximum: advance overflow
         let next = match cur {
             None => start,
-            Some(c) => c.saturating_add(1),
+            Some(c) => c.saturating_add(1).min(max),
         };
         if r < 45 {
             // linked commit (at the maximum this repeats the height: advance overflow)
@@ -334,7 +335,7 @@ fn history(rng: &mut Rng, desc: u64, backend: u64, len: u64) -> T {
 }
 
 /// directed short cases: every (previous, new) combination around the boundaries
-fn directed(desc: u64, backend: u64) -> Vec<T> {
+fn directed(desc: u64, backend: u64, tails: &[u32]) -> Vec<T> {
     let max = hmax(desc);
     let mut cases = vec![];
     let firsts: Vec<Option<u64>> = vec![None, Some(0), Some(1), Some(7), Some(max - 1), Some(max)];
@@ -356,7 +357,9 @@ fn directed(desc: u64, backend: u64) -> Vec<T> {
             vec![p.saturating_add(1), p.saturating_add(1)],
         ];
         for s in &seconds {
-            for tail in 0..4 {
+            let s: Vec<u64> = s.iter().map(|h| (*h).min(max)).collect();
+            let s = &s;
+            for tail in tails.iter().copied() {
                 let mut ops = prefix.clone();
                 ops.push(commit(s, &[], false));
                 match tail {
@@ -368,7 +371,7 @@ fn directed(desc: u64, backend: u64) -> Vec<T> {
                     }
                     _ => {
                         ops.push(T::l(vec![T::i(1)]));
-                        ops.push(commit(&[p.saturating_add(1)], &[p], false));
+                        ops.push(commit(&[p.saturating_add(1).min(max)], &[p], false));
                         ops.push(T::l(vec![T::i(1)]));
                         ops.push(T::l(vec![T::i(1)]));
                         ops.push(commit(&[], &[], false));
@@ -385,20 +388,23 @@ fn gen(prop: &str, rng: &mut Rng, n: u64, tier: &str) -> Vec<T> {
     assert_eq!(prop, "C09");
     let mut cases = vec![];
     for desc in 0..5 {
-        // RocksDB cases are much slower than in-memory ones
-        cases.extend(directed(desc, 0));
-        if tier == "thorough" || desc == 0 || desc == 2 {
-            cases.extend(directed(desc, 2));
-        }
+        // a RocksDB case costs ~0.5 s (open, column families, reopen), an in-memory one ~0.5 ms
+        cases.extend(directed(desc, 0, &[0, 1, 2, 3]));
         if tier == "thorough" {
-            cases.extend(directed(desc, 1));
+            cases.extend(directed(desc, 2, &[0, 1, 2, 3]));
+            cases.extend(directed(desc, 1, &[0, 1, 2, 3]));
+        } else if desc == 0 {
+            cases.extend(directed(desc, 2, &[2, 3]));
+        } else if desc == 2 {
+            cases.extend(directed(desc, 2, &[2]));
         }
     }
     for i in 0..n {
         let desc = i % 5;
-        let backend = match (i / 5) % 10 {
+        let backend = match (i / 5) % 20 {
             0 | 1 => 2,
             2 => 1,
+            3 | 4 | 5 if tier == "thorough" => 2,
             _ => 0,
         };
         let len = if tier == "thorough" { rng.range(3, 30) } else { rng.range(2, 14) };
